@@ -1,1 +1,2 @@
 import Check.Grey
+import Check.Decode
